@@ -46,7 +46,9 @@ func verifC04Run(in *verifc04.Input, rec *verifc04.Rec) {
 			return err
 		}
 		// the TOC entries are loaded by a background goroutine; its verdict belongs to opening
-		return mr.(*reader).waitInit()
+		err = mr.(*reader).waitInit()
+		rec.Settle() // a panic of that goroutine releases waitInit through the deferred Done
+		return err
 	})
 	if cl != "ok" {
 		if mr != nil {
